@@ -14,7 +14,8 @@
    statement; a Go panic is None. *)
 From Coq Require Import List ZArith Arith Bool.
 From Mamba Require Import Graph.Model Graph.Tri Graph.Abstract Graph.CtorModel Graph.CtorSpec
-  Graph.CtorDense Graph.CtorFill Graph.CtorPartite Graph.CtorFamilies.
+  Graph.CtorDense Graph.CtorFill Graph.CtorPartite Graph.CtorFamilies Graph.CtorFlower Graph.CtorViews
+  Graph.CtorDecode Graph.CtorSparse Graph.CtorKneser Graph.CtorFolded Graph.CtorLine Graph.CtorInduced Graph.CtorAlias.
 Import ListNotations.
 
 (* ---------------------------------------------------------------- what the invariant gives *)
@@ -106,6 +107,136 @@ Theorem C06_random_graph : forall n draw,
 Proof. exact random_graph_ok. Qed.
 Print Assumptions C06_random_graph.
 
+(* FoldedHypercubeGraph panics for dim = 0; for dim >= 1: the (dim-1)-cube plus the antipodal pairs *)
+Theorem C06_folded_hypercube : forall dim, 1 <= dim ->
+  builds (folded_hypercube dim) (2 ^ (dim - 1)) (folded_def dim).
+Proof. exact folded_hypercube_ok. Qed.
+Print Assumptions C06_folded_hypercube.
+
+(* KneserGraph(n,k) for all n, k (k > n gives the graph on 0 vertices): vertex x is the x-th
+   k-subset in the order of comb.Unrank, x ~ y iff IntersectionSize of the two subsets is 0.
+   Partial with respect to the definition: that [ksubset k x] enumerates the k-subsets of
+   {0..n-1} in colexicographic order as ascending lists (so that IntersectionSize is the size
+   of the intersection) is comb.Unrank's contract (C16), not proved here. *)
+Theorem C06_kneser_partial : forall n k, builds (kneser n k) (binom n k) (kneser_def k).
+Proof. exact kneser_ok. Qed.
+Print Assumptions C06_kneser_partial.
+
+(* BipartiteKneserGraph(n,k) for 2k <= n: x < N = C(n,k) is the x-th k-subset A, N + j the j-th
+   (n-k)-subset B, A ~ B iff IntersectionSize(A,B) = k, i.e. A is contained in B.  (For
+   n >= k > n/2 the code builds the same relation, which is then empty, while the documented
+   definition is not: GENUINE DEFECT in notes/C06.md; same partiality as for Kneser.) *)
+Theorem C06_bipartite_kneser_partial : forall n k, 2 * k <= n ->
+  builds (bipartite_kneser n k) (binom n k + binom n k) (bikneser_def n k (binom n k)).
+Proof. intros n k H. apply bipartite_kneser_ok. apply (Nat.le_trans _ (2 * k)); [apply Nat.le_add_r|exact H]. Qed.
+Print Assumptions C06_bipartite_kneser_partial.
+
+(* FlowerSnark panics for even n; for odd n >= 3 it is the flower snark J_n; for every odd n
+   (n = 1 included, where the definition would prescribe a loop) the result is well formed *)
+Theorem C06_flower_snark : forall n, Nat.odd n = true -> 3 <= n ->
+  builds (flower_snark n) (4 * n) (flower_def n).
+Proof. exact flower_snark_ok. Qed.
+Print Assumptions C06_flower_snark.
+
+Theorem C06_flower_snark_wf : forall n, Nat.odd n = true ->
+  exists g, flower_snark n = Some g /\ dwf g /\ dn g = 4 * n.
+Proof. exact flower_snark_wf. Qed.
+Print Assumptions C06_flower_snark_wf.
+
+Theorem C06_flower_snark_domain : forall n, Nat.even n = true -> flower_snark n = None.
+Proof. exact flower_snark_domain. Qed.
+Print Assumptions C06_flower_snark_domain.
+
+(* RandomTree panics for n < 2; for n >= 2 and every stream of draws of r.Intn(n): well formed.
+   PruferDecode: every code with entries below len+2. *)
+Theorem C06_prufer_decode_wf : forall p, (forall v, In v p -> v < length p + 2) ->
+  exists g, prufer_decode p = Some g /\ dwf g /\ dn g = length p + 2.
+Proof. exact prufer_decode_ok. Qed.
+Print Assumptions C06_prufer_decode_wf.
+
+Theorem C06_random_tree : forall n draw, 2 <= n -> (forall k, draw k < n) ->
+  exists g, random_tree n draw = Some g /\ dwf g /\ dn g = n.
+Proof. exact random_tree_ok. Qed.
+Print Assumptions C06_random_tree.
+
+(* ---------------------------------------------------------------- NewSparse *)
+(* NewSparse(n, lists) for every family of n neighbour lists, in any order and with repeats,
+   that is symmetric, loop-free and in range (the Go code does not check this): no panic, the
+   struct invariant (lists ascending and duplicate-free, degrees = lengths, M = number of
+   edges), and x ~ y exactly when y occurs in the list of x.  A SparseGraph under the invariant
+   is well formed through every observer. *)
+Theorem C06_new_sparse : forall n nb, nbrs_valid n nb ->
+  exists g, new_sparse n (Some nb) = Some g /\ swf g /\ sn g = n /\
+    forall x y, x < n -> adj (sabs g) x y = mem y (nth x nb []).
+Proof. exact new_sparse_ok. Qed.
+Print Assumptions C06_new_sparse.
+
+Theorem C06_new_sparse_nil : forall n,
+  exists g, new_sparse n None = Some g /\ swf g /\ sn g = n /\ forall x y, adj (sabs g) x y = false.
+Proof. exact new_sparse_nil. Qed.
+Print Assumptions C06_new_sparse_nil.
+
+Theorem C06_sparse_wf : forall g, swf g -> gwf (GS g) /\ grep (GS g) (sabs g).
+Proof. intros g W. split; [apply swf_gwf | apply swf_grep]; exact W. Qed.
+Print Assumptions C06_sparse_wf.
+
+(* ---------------------------------------------------------------- views and transformations *)
+(* The complement view of any well-formed Graph value (dense, sparse, another view) is well
+   formed and shows exactly the complement: x ~ y iff x <> y and not x ~ y before. *)
+Theorem C06_complement_view : forall g a, awf a -> grep g a ->
+  awf (a_compl a) /\ grep (GC g) (a_compl a).
+Proof. intros g a W R. split; [apply awf_compl | apply compl_view_ok]; assumption. Qed.
+Print Assumptions C06_complement_view.
+
+(* ComplementDense of any well-formed Graph value: no panic, struct invariant, the complement. *)
+Theorem C06_complement_dense : forall g a, awf a -> grep g a ->
+  exists h, complement_dense g = Some h /\ dwf h /\ aeq (dabs h) (a_compl a).
+Proof. exact complement_dense_ok. Qed.
+Print Assumptions C06_complement_dense.
+
+(* The InducedSubgraph view of any well-formed Graph value, for every duplicate-free V with
+   entries below N: well formed, and vertex x of the view is V[x]. *)
+Theorem C06_induced_view : forall g a V, awf a -> grep g a -> NoDup V ->
+  (forall x, In x V -> x < an a) ->
+  awf (a_induced a V) /\ grep (induced_view g V) (a_induced a V).
+Proof. intros g a V W R Nd Hr. split; [apply awf_induced | apply induced_view_ok]; assumption. Qed.
+Print Assumptions C06_induced_view.
+
+(* LineGraphDense of any well-formed Graph value: no panic (every cell written lies inside the
+   triangle of M vertices), well formed, M vertices.  Partial: that two vertices are adjacent
+   exactly when the corresponding edges (in the order 01 02 12 03 ...) share an endpoint is tied
+   to the code by the correspondence runs only (it is in the model, not in a theorem). *)
+Theorem C06_line_graph_wf_partial : forall g a, awf a -> grep g a ->
+  exists h, line_graph g = Some h /\ dwf h /\ Z.of_nat (dn h) = a_M a.
+Proof. exact line_graph_ok. Qed.
+Print Assumptions C06_line_graph_wf_partial.
+
+(* RookGraph(n, m) = LineGraphDense(CompletePartiteGraph(n, m)); same partiality *)
+Theorem C06_rook_wf_partial : forall n m, exists h, rook n m = Some h /\ dwf h.
+Proof. exact rook_wf. Qed.
+Print Assumptions C06_rook_wf_partial.
+
+(* ---------------------------------------------------------------- aliasing with caller-supplied slices *)
+(* Heap model (buffers with addresses, coq/Graph/CtorModel.v): NewDense reads the caller's buffer
+   at [src] and the graph it returns points into a buffer allocated by the call; it is the graph
+   of the functional model; whatever the caller later writes to any buffer that existed before
+   the call (its own slice included) leaves the graph, as every observer sees it, unchanged. *)
+Theorem C06_new_dense_no_alias : forall H n src e, nth_error H src = Some e -> length e = tri n ->
+  exists H' g d, h_new_dense H n src = Some (H', g) /\ new_dense n (Some e) = Some d /\
+    h_view H' g = Some d /\ length H <= haddr g /\
+    forall ws, (forall w, In w ws -> fst (fst w) < length H) -> h_view (h_writes H' ws) g = Some d.
+Proof. exact h_new_dense_ok. Qed.
+Print Assumptions C06_new_dense_no_alias.
+
+(* the same for NewSparse and the caller's inner slices *)
+Theorem C06_new_sparse_no_alias : forall H n srcs ls,
+  mapM (nth_error H) srcs = Some ls -> length srcs = n ->
+  exists H' g s, h_new_sparse H n srcs = Some (H', g) /\ new_sparse n (Some ls) = Some s /\
+    hs_view H' g = Some s /\
+    forall ws, (forall w, In w ws -> fst (fst w) < length H) -> hs_view (hn_writes H' ws) g = Some s.
+Proof. exact h_new_sparse_ok. Qed.
+Print Assumptions C06_new_sparse_no_alias.
+
 (* ---------------------------------------------------------------- non-vacuity *)
 Example C06_new_dense_nonvacuous :
   new_dense 4 (Some [1; 0; 2; 0; 0; 255]%Z) =
@@ -118,3 +249,12 @@ Example C06_families_nonvacuous :
   hypercube 2 = Some (mkDense 4 4 [2; 2; 2; 2]%Z [1; 1; 0; 0; 1; 1]%Z 6) /\
   circulant 5 [-1; 7]%Z = Some (mkDense 5 10 [4; 4; 4; 4; 4]%Z [1; 1; 1; 1; 1; 1; 1; 1; 1; 1]%Z 10).
 Proof. vm_compute. repeat split; reflexivity. Qed.
+
+(* the views on a sparse path 0-1-2 plus the isolated vertex 3, and the caller overwriting its slice *)
+Example C06_views_nonvacuous :
+  exists s, new_sparse 4 (Some [[1]; [2; 0; 2]; [1]; []]) = Some s /\
+    g_neighbours (GC (GS s)) 1 = Some [3] /\ g_M (GC (GS s)) = Some 4%Z /\
+    g_degrees (induced_view (GC (GS s)) [3; 0; 2]) = Some [2; 2; 2]%Z /\
+    (exists H g, h_new_dense [[1; 0; 1]%Z] 3 0 = Some (H, g) /\
+       h_view (h_write H 0 1 7%Z) g = Some (mkDense 3 2 [1; 2; 1]%Z [1; 0; 1]%Z 3)).
+Proof. eexists. split; [vm_compute; reflexivity|]. vm_compute. repeat split. eexists. eexists. split; reflexivity. Qed.
